@@ -8,6 +8,7 @@ import (
 
 	"github.com/circlefin/noble-cctp/x/cctp/types"
 	sdk "github.com/cosmos/cosmos-sdk/types"
+	"github.com/cosmos/cosmos-sdk/types/query"
 	"github.com/cosmos/gogoproto/proto"
 	"pgregory.net/rapid"
 
@@ -116,14 +117,45 @@ func replayOp(g *sim.G, label string) *sim.Op {
 // behave exactly as if it had never been attempted.
 func rollbackProbe(g *sim.G, label string) []*sim.Op {
 	a := g.AdminOp(label+"/a", 100, []string{"AddRemoteTokenMessenger", "RemoveRemoteTokenMessenger", "LinkTokenPair", "UnlinkTokenPair", "EnableAttester", "DisableAttester",
-		"SetMaxBurnAmountPerMessage", "UpdateSignatureThreshold", "UpdateMaxMessageBodySize", "PauseBurningAndMinting", "UpdatePauser"})
-	// guaranteed to fail: nobody's pending-owner acceptance by an account that is not pending
+		"SetMaxBurnAmountPerMessage", "UpdateSignatureThreshold", "UpdateMaxMessageBodySize", "PauseBurningAndMinting", "UnpauseBurningAndMinting",
+		"PauseSendingAndReceivingMessages", "UnpauseSendingAndReceivingMessages", "UpdatePauser", "UpdateAttesterManager", "UpdateTokenController", "UpdateOwner"})
+	b := failingMsg(g, label+"/fail")
+	ops := []*sim.Op{sim.Multi(a, b)}
+	if g.Pct(label+"/again", 60) {
+		ops = append(ops, cloneOp(a))
+	}
+	return ops
+}
+
+// failingMsg draws a message that is certain to fail but, before failing, reads different parts of the
+// state (so that anything loaded while an earlier message's change was visible could stick).
+func failingMsg(g *sim.G, label string) *sim.Op {
+	m := g.W.Model
 	by := sim.Acct(g.Acct(label + "/by"))
-	if g.W.Model.Pending != nil && *g.W.Model.Pending == by {
+	switch g.Int(label+"/k", 0, 3) {
+	case 0:
+		// the threshold update reads the attester list and the threshold, then fails: too high
+		return sim.TxOp("admin:UpdateSignatureThreshold", &types.MsgUpdateSignatureThreshold{From: m.Roles[1], Amount: uint32(len(m.Atts) + 5)})
+	case 1:
+		// validly attested receive for another destination domain: reads flags, attesters, threshold
+		no := false
+		bad := g.Inbound(label+"/bad", sim.InboundOpts{ToModule: &no, Submitter: by, Break: []string{"P4"}}).Msg
+		if att := g.W.HonestAttestation(bad, attest.SigStyle{}); att != nil {
+			return sim.TxOp("recv", &types.MsgReceiveMessage{From: by, Message: bad, Attestation: att})
+		}
+	case 2:
+		// deposit of amount 0 is rejected at once; a deposit with an unknown token reads messengers first
+		dom := uint32(0)
+		if ds := g.DomainsWithMessenger(); len(ds) > 0 {
+			dom = ds[0]
+		}
+		return sim.TxOp("dep", &types.MsgDepositForBurn{From: by, Amount: sim.Int(big.NewInt(5)), DestinationDomain: dom, MintRecipient: sim.Pad32([]byte{7}), BurnToken: "unotthedenom"})
+	}
+	// nobody's pending-owner acceptance by an account that is not pending
+	if m.Pending != nil && *m.Pending == by {
 		by = sim.Acct((sim.AcctOfBytes(sdk.MustAccAddressFromBech32(by)) + 1) % sim.NAccts)
 	}
-	b := sim.TxOp("admin:AcceptOwner", &types.MsgAcceptOwner{From: by})
-	return []*sim.Op{sim.Multi(a, b), cloneOp(a)}
+	return sim.TxOp("admin:AcceptOwner", &types.MsgAcceptOwner{From: by})
 }
 
 // queuedOp pops an op queued by an earlier generator step of the same case.
@@ -236,9 +268,11 @@ type c02 struct {
 
 func (c *c02) Begin(w *sim.World) {
 	c.used, c.tracked, c.failed, c.varies = map[sim.UsedSpec]bool{}, map[sim.UsedSpec]bool{}, map[sim.UsedSpec]bool{}, map[string]bool{}
-	for _, u := range w.Gen.Used {
+	for i, u := range w.Gen.Used {
 		c.used[u] = true
-		c.track(u)
+		if i < 8 {
+			c.track(u)
+		}
 	}
 }
 
@@ -312,13 +346,20 @@ func (c *c02) lists(w *sim.World, idx int) *Viol {
 	for u := range c.used {
 		want[fmt.Sprintf("%d/%d", u.Domain, u.Nonce)] = 1
 	}
-	var resp types.QueryAllUsedNoncesResponse
-	if code, lg := w.Chain.Query("UsedNonces", &types.QueryAllUsedNoncesRequest{}, &resp); code != 0 {
-		return viol("C02", idx, "used-nonces list query", "answer", lg)
-	}
 	got := map[string]int{}
-	for _, n := range resp.UsedNonces {
-		got[fmt.Sprintf("%d/%d", n.SourceDomain, n.Nonce)]++
+	var key []byte
+	for page := 0; page < 1000; page++ {
+		var resp types.QueryAllUsedNoncesResponse
+		if code, lg := w.Chain.Query("UsedNonces", &types.QueryAllUsedNoncesRequest{Pagination: &query.PageRequest{Key: key, Limit: 64}}, &resp); code != 0 {
+			return viol("C02", idx, "used-nonces list query", "answer", lg)
+		}
+		for _, n := range resp.UsedNonces {
+			got[fmt.Sprintf("%d/%d", n.SourceDomain, n.Nonce)]++
+		}
+		if resp.Pagination == nil || len(resp.Pagination.NextKey) == 0 {
+			break
+		}
+		key = resp.Pagination.NextKey
 	}
 	if fmt.Sprint(want) != fmt.Sprint(got) {
 		return viol("C02", idx, "used-nonces list vs set of (genesis + successful receives)", want, got)
@@ -359,10 +400,10 @@ func (c *c02) Summary(w *sim.World) (string, []string) {
 
 var C02 = register(&HistProp{ID: "C02",
 	Genesis: func(t *rapid.T) *sim.GenSpec {
-		return sim.DrawGenesis(t, sim.GenOpts{UsedInGen: true, NoPause: true, Decoys: true})
+		return sim.DrawGenesis(t, sim.GenOpts{UsedInGen: true, NoPause: true, Decoys: true, ManyUsed: true})
 	},
 	Next: func(g *sim.G, i int) *sim.Op {
-		return Mix{Recv: 8, Replay: 7, Admin: 3, Send: 1, Multi: 1, RecvBroken: 35, AdminHolder: 85, Restart: 3,
+		return Mix{Recv: 8, Replay: 7, Admin: 3, Send: 1, Multi: 1, RecvBroken: 35, AdminHolder: 85, Restart: 3, Rollback: 4,
 			AdminTypes: []string{"PauseBurningAndMinting", "UnpauseBurningAndMinting", "PauseSendingAndReceivingMessages", "UnpauseSendingAndReceivingMessages",
 				"EnableAttester", "DisableAttester", "UpdateSignatureThreshold", "LinkTokenPair", "UnlinkTokenPair", "AddRemoteTokenMessenger", "RemoveRemoteTokenMessenger"}}.next(g)
 	},
@@ -557,7 +598,7 @@ var C03 = register(&HistProp{ID: "C03",
 				return ops[0]
 			}
 		}
-		return Mix{Recv: 14, Replay: 4, Admin: 4, Ledger: 2, RecvBroken: 65, AdminHolder: 90, FaultPct: 5, AdminTypes: recvAdmin}.next(g)
+		return Mix{Recv: 14, Replay: 4, Admin: 4, Ledger: 2, RecvBroken: 65, AdminHolder: 90, FaultPct: 5, Rollback: 4, AdminTypes: recvAdmin}.next(g)
 	},
 	MinOps: 3, MaxOps: 25,
 	New: func() Checker {
@@ -618,7 +659,7 @@ func c08extra(c *strict, w *sim.World, s *sim.Step) *Viol {
 var C08 = register(&HistProp{ID: "C08",
 	Genesis: func(t *rapid.T) *sim.GenSpec { return sim.DrawGenesis(t, sim.GenOpts{BigBalances: true, MixedDenom: true}) },
 	Next: func(g *sim.G, i int) *sim.Op {
-		return Mix{Dep: 14, Admin: 5, Ledger: 2, DepValid: 45, AdminHolder: 92, FaultPct: 6,
+		return Mix{Dep: 14, Admin: 5, Ledger: 2, DepValid: 45, AdminHolder: 92, FaultPct: 6, Rollback: 5,
 			AdminTypes: []string{"SetMaxBurnAmountPerMessage", "SetMaxBurnAmountPerMessage", "UpdateMaxMessageBodySize", "AddRemoteTokenMessenger", "RemoveRemoteTokenMessenger",
 				"PauseBurningAndMinting", "UnpauseBurningAndMinting", "PauseSendingAndReceivingMessages", "UnpauseSendingAndReceivingMessages"}}.next(g)
 	},
